@@ -26,6 +26,13 @@ pub trait Hooks {
     fn draw(&self, _min: i64, _max: i64) -> Option<i64> {
         None
     }
+
+    /// Called once at a named scheduling point after the yields: `Some(d)`
+    /// makes the calling task sleep for `d` (under a paused clock: until every
+    /// other task has gone idle), the strongest form of a pre-emption.
+    fn point_sleep(&self, _name: &'static str) -> Option<std::time::Duration> {
+        None
+    }
 }
 
 thread_local! {
@@ -64,9 +71,12 @@ pub async fn point(name: &'static str) {
             None => false,
         };
         if !yield_now {
-            return;
+            break;
         }
         YieldOnce(false).await;
+    }
+    if let Some(d) = current().and_then(|h| h.point_sleep(name)) {
+        tokio::time::sleep(d).await;
     }
 }
 
